@@ -25,6 +25,9 @@ import JsonV.Lemmas.EncInvSound
 import JsonV.Lemmas.EncInvGrammar
 import JsonV.Lemmas.EncInvInst
 import JsonV.Lemmas.NumFloat
+import JsonV.Props.C10Glue
+import JsonV.Props.C01
+import JsonV.Lemmas.QuoteJString
 
 namespace JsonV.Props.C02
 open JsonV JsonV.Model JsonV.Spec.ValidJson JsonV.Model.EncInv
@@ -139,22 +142,17 @@ theorem render_text (o : Opt) (quote : Bytes → Bytes) (hq : ∀ s, JString o.s
 
 /-! ### the parameters instantiated with the models proved by slices C11 and C10 -/
 
-/-- Slice C11's model of `jsonwire.AppendQuote` (without EscapeForHTML/JS) returns a strict string literal of
-the grammar for EVERY byte string (ill-formed input comes out as U+FFFD). -/
-theorem quote_is_string (f : QFlags) (hh : f.html = false) (hj : f.js = false) (v : Bool) (s : Bytes) :
-    JString v (appendQuote f s).1 :=
-  appendQuote_jstring f hh hj v s
-
-/-- NOT proved: the same with EscapeForHTML / EscapeForJS (slice C11 has the scanner-acceptance lemma
-`csLoop_quoteLoop` only for the two flags off; `html_safe`/`js_safe` say what is escaped, not that the result
-scans).  Validated by the harness (EscapeForHTML/JS are in every option draw). -/
-def quote_escaped_full : Prop := ∀ (f : QFlags) (v : Bool) (s : Bytes), JString v (appendQuote f s).1
+/-- Slice C11's model of `jsonwire.AppendQuote` returns a strict string literal of the grammar for EVERY byte
+string and EVERY flag set, EscapeForHTML / EscapeForJS included (ill-formed input comes out as U+FFFD)
+— `appendQuote_is_jstring` of Lemmas/QuoteJString.lean. -/
+theorem quote_is_string (f : QFlags) (v : Bool) (s : Bytes) : JString v (appendQuote f s).1 :=
+  JsonV.Lemmas.QuoteJString.appendQuote_is_jstring f v s
 
 /-- **`render_text` for the modelled AppendQuote, no hypothesis on `quote` left.** -/
-theorem render_text_real (o : Opt) (f : QFlags) (hh : f.html = false) (hj : f.js = false) (t : OutTree)
+theorem render_text_real (o : Opt) (f : QFlags) (t : OutTree)
     (hw : t.WellFormed o (realQuote f)) (hd : t.depth ≤ o.maxDepth) :
     JText (gopts o) o.maxDepth o.key (t.render (realQuote f)) :=
-  render_text o (realQuote f) (fun s => quote_is_string f hh hj o.strict s) t hw hd
+  render_text o (realQuote f) (fun s => quote_is_string f o.strict s) t hw hd
 
 /-- What `WellFormed` asks of object names, for the modelled AppendQuote and the default key (AppendUnquote): the
 key of a quoted Go string is that string with ill-formed bytes replaced by U+FFFD — so the condition is on the
@@ -174,12 +172,48 @@ theorem ints_are_numbers (n : Nat) (i : Int) :
     JNumber (JsonV.Model.Number.formatUint n) ∧ JNumber (JsonV.Model.Number.formatInt i) := by
   rw [formatUint_eq, formatInt_eq]; exact ⟨jnumber_natDigits n, jnumber_intDigits i⟩
 
-/-- NOT proved here: floats.  `Frag.num` carries its law; slice C10 proves `isJsonNumber (appendFloat …)` for its own
-recogniser (`float_is_number`), the statement against the grammar (`float_is_JNumber`) is being proved by slice
-num and was not on main when this file was written. -/
-def float_fragment_full : Prop :=
-  ∀ (neg : Bool) (ds : List Nat) (n : Int), JsonV.Lemmas.NumFloat.WFD ds n →
-    JNumber (JsonV.Model.Number.appendFloat neg ds n)
+/-- Floats: slice num's `float_is_JNumber` (Props/C10Glue.lean) — jsonwire.AppendFloat's output on every
+well-formed shortest decomposition is a number of the grammar; so a float fragment `Frag.num` can always be
+built from it (`float_frag`), and the law that `Frag.num` carries is no longer a parameter. -/
+theorem float_fragment (neg : Bool) (ds : List Nat) (n : Int) (h : JsonV.Lemmas.NumFloat.WFD ds n) :
+    JNumber (JsonV.Model.Number.appendFloat neg ds n) :=
+  JsonV.Props.C10Glue.float_is_JNumber neg ds n h
+
+/-- the recogniser's number scanner accepts every number of the grammar (completeness for numbers), which is what
+`Frag.num` stores -/
+theorem number_complete (lit : Bytes) (h : JNumber lit) : pNumber lit = some [] :=
+  pNumber_complete lit h
+
+/-- the float fragment for a well-formed decomposition -/
+def float_frag (neg : Bool) (ds : List Nat) (n : Int) (h : JsonV.Lemmas.NumFloat.WFD ds n) : Frag :=
+  .num (JsonV.Model.Number.appendFloat neg ds n) (pNumber_complete _ (float_fragment neg ds n h))
+
+/-! ### what Marshal emits is what the decoder-side validator accepts -/
+
+/-- the recogniser options that correspond to the validator options of slice C01 (`Model/Validate.lean`):
+same UTF-8 mode, same duplicate policy, the decoder's nesting limit and the decoder's notion of a name's key -/
+def optOf (vo : JsonV.Model.Validate.VOpts) : Opt :=
+  { strict := !vo.allowInvalidUTF8, noDup := !vo.allowDup, maxDepth := JsonV.Model.Validate.maxNestingDepth,
+    key := JsonV.Props.C01.nameKey vo }
+
+/-- **`render_accepted`.**  The rendering of every well-formed tree of fragments is ACCEPTED by the model of
+`jsontext.Value.IsValid` (slice C01's validator, which `valid_iff` shows to accept exactly the grammar): what the
+marshal side emits is what the decoder side accepts, under the same options — in particular it is rejected
+neither for syntax, nor for UTF-8, nor for duplicate names, nor for depth. -/
+theorem render_accepted (vo : JsonV.Model.Validate.VOpts) (quote : Bytes → Bytes)
+    (hq : ∀ s, JString (!vo.allowInvalidUTF8) (quote s)) (t : OutTree)
+    (hw : t.WellFormed (optOf vo) quote) (hd : t.depth ≤ JsonV.Model.Validate.maxNestingDepth) :
+    JsonV.Model.Validate.isValid vo (t.render quote) = true := by
+  apply (JsonV.Props.C01.valid_iff vo _).2
+  have := render_text (optOf vo) quote hq t hw hd
+  simpa [optOf, JsonV.Lemmas.EncInvSound.gopts, JsonV.Props.C01.gopts] using this
+
+/-- … with the modelled AppendQuote, nothing assumed about `quote`. -/
+theorem render_accepted_real (vo : JsonV.Model.Validate.VOpts) (f : QFlags)
+    (t : OutTree) (hw : t.WellFormed (optOf vo) (realQuote f))
+    (hd : t.depth ≤ JsonV.Model.Validate.maxNestingDepth) :
+    JsonV.Model.Validate.isValid vo (t.render (realQuote f)) = true :=
+  render_accepted vo (realQuote f) (fun s => quote_is_string f _ s) t hw hd
 
 /-! ### what remains between these theorems and C02 -/
 
@@ -192,13 +226,12 @@ def EmitsTree {Val : Type} (marshal : Opt → QFlags → Val → Option Bytes) :
 
 /-- Proved: for ANY marshal model that emits trees, a successful output is exactly one RFC 8259 / RFC 7493 text. -/
 theorem marshal_valid_of_emitsTree {Val : Type} (marshal : Opt → QFlags → Val → Option Bytes)
-    (he : EmitsTree marshal) (o : Opt) (f : QFlags) (hh : f.html = false) (hj : f.js = false) (v : Val) (out : Bytes)
+    (he : EmitsTree marshal) (o : Opt) (f : QFlags) (v : Val) (out : Bytes)
     (h : marshal o f v = some out) : JText (gopts o) o.maxDepth o.key out := by
   obtain ⟨t, hw, hd, rfl⟩ := he o f v out h
-  exact render_text_real o f hh hj t hw hd
+  exact render_text_real o f t hw hd
 
-/-- **Precisely what remains unproved for C02 on the default (no user code, no whitespace, no HTML/JS escaping)
-paths:** that the reflection code of arshal_default.go / arshal_any.go / arshal_embedded.go, as a function from
+/-- **Precisely what remains unproved for C02 on the default (no user code, no whitespace) paths:** that the reflection code of arshal_default.go / arshal_any.go / arshal_embedded.go, as a function from
 (options, Go value) to bytes-or-error, emits trees — i.e. that it only ever appends the fragments of
 `Model/EncInv.lean` in the nesting of an `OutTree`, with pairwise different names per object when duplicates
 are not allowed and within the nesting limit.  There is no byte-level Lean model of that code (slice C04's
@@ -308,7 +341,13 @@ example : (OutTree.arr [.atom (.int (-5)), .obj [([0x61, 0xff], .atom .emptyArr)
 
 example : JText (gopts {}) 10000 ({} : Opt).key
     ((OutTree.arr [.atom (.int (-5)), .obj [([0x61, 0xff], .atom .emptyArr)], .atom (.str [0x22])]).render (realQuote {})) :=
-  render_text_real {} {} rfl rfl _ (by simp [OutTree.WellFormed, wfList, wfMembers, renderMembers])
+  render_text_real {} {} _ (by simp [OutTree.WellFormed, wfList, wfMembers, renderMembers])
     (by simp [OutTree.depth, depthList, depthMembers, Frag.depth])
+
+-- `render_accepted_real` applies: the decoder-side validator model accepts the rendering of that tree
+example : JsonV.Model.Validate.isValid {}
+    ((OutTree.arr [.atom (.int (-5)), .obj [([0x61, 0xff], .atom .emptyArr)], .atom (.str [0x22])]).render (realQuote {})) = true :=
+  render_accepted_real {} {} _ (by simp [OutTree.WellFormed, wfList, wfMembers, renderMembers])
+    (by simp [OutTree.depth, depthList, depthMembers, Frag.depth]; decide)
 
 end JsonV.Props.C02
